@@ -376,18 +376,17 @@ mod verif_c06_twins {
         returned_on_invalid_input();
     }
 
-    // Verus: requires wf_v(self), align <= 2^47 (both modes)
     //@ obligation C06 C06.VirtAddr_is_aligned.iff_multiple
     #[kani::proof]
     fn c06_twin_virtaddr_is_aligned_exact() {
         let (a, v) = any_virt();
         let (k, al) = any_pow2();
-        kani::assume(k <= 47);
+        let _ = k;
         kani::cover!(true, "c06_twin_virtaddr_is_aligned_exact: reachable");
         let r = v.is_aligned(al);
         check_each! {
             r == (a % al == 0)
-                => "C06.VirtAddr_is_aligned.iff_multiple: true exactly for multiples of align (align <= 2^47)",
+                => "C06.VirtAddr_is_aligned.iff_multiple: true exactly for multiples of align (all 64 powers of two)",
         }
     }
 
@@ -397,8 +396,7 @@ mod verif_c06_twins {
     fn c06_twin_virtaddr_is_aligned_panics() {
         let (_a, v) = any_virt();
         let al = any_non_pow2();
-        kani::assume(al <= TWO47);
-        kani::cover!(true, "c06_twin_virtaddr_is_aligned_panics: reachable");
+                kani::cover!(true, "c06_twin_virtaddr_is_aligned_panics: reachable");
         let _ = v.is_aligned(al);
         returned_on_invalid_input();
     }
@@ -408,12 +406,12 @@ mod verif_c06_twins {
     fn c06_twin_virtaddr_is_aligned_u64_exact() {
         let (a, v) = any_virt();
         let (k, al) = any_pow2();
-        kani::assume(k <= 47);
+        let _ = k;
         kani::cover!(true, "c06_twin_virtaddr_is_aligned_u64_exact: reachable");
         let r = v.is_aligned_u64(al);
         check_each! {
             r == (a % al == 0)
-                => "C06.VirtAddr_is_aligned_u64.iff_multiple: true exactly for multiples of align (align <= 2^47)",
+                => "C06.VirtAddr_is_aligned_u64.iff_multiple: true exactly for multiples of align (all 64 powers of two)",
         }
     }
 
@@ -423,8 +421,7 @@ mod verif_c06_twins {
     fn c06_twin_virtaddr_is_aligned_u64_panics() {
         let (_a, v) = any_virt();
         let al = any_non_pow2();
-        kani::assume(al <= TWO47);
-        kani::cover!(true, "c06_twin_virtaddr_is_aligned_u64_panics: reachable");
+                kani::cover!(true, "c06_twin_virtaddr_is_aligned_u64_panics: reachable");
         let _ = v.is_aligned_u64(al);
         returned_on_invalid_input();
     }
